@@ -189,6 +189,109 @@ struct qsbr_harness final : harness {
     return idx < n ? cat[idx] : "";
   }
 
+  // Template family "threads exit / pause / resume / retire at every point of
+  // an epoch change": thread 0 performs the epoch-changing operation; the
+  // others prepare pending requests in chosen lists and are gated (await) so
+  // that they act once thread 0 is about to start that operation - the
+  // preemption budget is then spent INSIDE the epoch change.
+  std::string gen_epoch_race(vrng& r) {
+    const unsigned m = 1 + static_cast<unsigned>(r.below(3));  // other threads
+    const unsigned T = m + 1;
+    std::vector<std::string> lines[POOL];
+    std::string init = "init r";
+    unsigned nobj = 0;
+    unsigned a_ops = 0;  // operations of thread 0 so far
+    std::vector<bool> joiner(m + 1, false);
+    for (unsigned i = 1; i <= m; ++i) {
+      joiner[i] = r.chance(1, 5);
+      init += joiner[i] ? " p" : " r";
+    }
+    auto add = [&](unsigned t, const std::string& op) { lines[t].push_back("t" + std::to_string(t) + " " + op); };
+    // phase 1 (epoch e-1)
+    std::vector<unsigned> x_ops(m + 1, 0);
+    for (unsigned i = 1; i <= m; ++i) {
+      if (joiner[i]) continue;
+      if (r.chance(3, 4)) {
+        add(i, "retire " + std::to_string(nobj++));
+        ++x_ops[i];
+      }
+      if (r.chance(1, 4)) {
+        add(i, "take " + std::to_string(r.below(nobj + 1)));
+        ++x_ops[i];
+      }
+      add(i, "q");
+      ++x_ops[i];
+    }
+    for (unsigned i = 1; i <= m; ++i)
+      if (!joiner[i]) {
+        add(0, "await " + std::to_string(i) + " " + std::to_string(x_ops[i]));
+        ++a_ops;
+      }
+    if (r.chance(1, 3)) {
+      add(0, "retire " + std::to_string(nobj++));
+      ++a_ops;
+    }
+    add(0, "q");  // epoch e-1 -> e (if everybody quiesced)
+    ++a_ops;
+    // phase 2 (epoch e): observe, maybe retire again
+    for (unsigned i = 1; i <= m; ++i) {
+      if (joiner[i]) continue;
+      add(i, "await 0 " + std::to_string(a_ops));
+      ++x_ops[i];
+      if (r.chance(4, 5)) {
+        add(i, "q");
+        ++x_ops[i];
+      }
+      if (r.chance(1, 2)) {
+        add(i, "retire " + std::to_string(nobj++));
+        ++x_ops[i];
+      }
+      if (r.chance(1, 5)) {
+        add(i, "take " + std::to_string(r.below(nobj ? nobj : 1)));
+        ++x_ops[i];
+      }
+    }
+    for (unsigned i = 1; i <= m; ++i)
+      if (!joiner[i]) {
+        add(0, "await " + std::to_string(i) + " " + std::to_string(x_ops[i]));
+        ++a_ops;
+      }
+    // gate: the others act once thread 0 is about to start its changing operation
+    for (unsigned i = 1; i <= m; ++i) {
+      add(i, "await 0 " + std::to_string(a_ops));
+      const unsigned act = static_cast<unsigned>(r.below(10));
+      if (joiner[i]) {
+        add(i, "resume");
+        if (r.chance(1, 2)) add(i, "q");
+      } else if (act < 5) {
+        add(i, "pause");
+        if (r.chance(1, 3)) add(i, "resume");
+      } else if (act < 7) {
+        add(i, "q");
+      } else if (act < 9) {
+        add(i, "retire " + std::to_string(nobj++));
+        if (r.chance(1, 2)) add(i, "pause");
+      } else {
+        add(i, "pause");
+        add(i, "resume");
+        add(i, "q");
+      }
+    }
+    // the epoch-changing operation of thread 0
+    if (r.chance(3, 4)) {
+      add(0, "q");
+    } else {
+      add(0, "pause");
+      if (r.chance(1, 2)) add(0, "resume");
+    }
+    if (r.chance(1, 2)) add(0, "q");
+    if (nobj == 0) nobj = 1;
+    std::string p = "threads " + std::to_string(T) + " objects " + std::to_string(nobj) + "\n" + init + "\n";
+    for (unsigned t = 0; t < T; ++t)
+      for (auto& l : lines[t]) p += l + "\n";
+    return p;
+  }
+
   std::string gen_program(std::uint64_t seed, std::uint64_t index, verif::stats* st) override {
     const std::string c = catalogue(index);
     if (!c.empty()) {
@@ -196,6 +299,10 @@ struct qsbr_harness final : harness {
       return c;
     }
     vrng r(verif::hash_combine(seed, index));
+    if (r.chance(1, 2)) {
+      if (st) st->inc("programs_epoch_change_race_template");
+      return gen_epoch_race(r);
+    }
     const unsigned T = 2 + static_cast<unsigned>(r.below(3));
     const unsigned NO = 1 + static_cast<unsigned>(r.below(3));
     std::string p = "threads " + std::to_string(T) + " objects " + std::to_string(NO) + "\ninit";
@@ -263,7 +370,7 @@ struct qsbr_harness final : harness {
       if (T < 1) T = 1;
       if (T > POOL) T = POOL;
       if (NO < 1) NO = 1;
-      if (NO > 8) NO = 8;
+      if (NO > 12) NO = 12;
       while (init.size() < T) init.push_back('r');
     }
     exec_result res;
